@@ -11,7 +11,10 @@
 use crate::rsp::s2r::{CSPARQLWindow, ContentContainer, ProbabilisticOccurrence, Report, ReportStrategy, Tick};
 use std::fmt::Debug;
 use std::hash::Hash;
+#[cfg(not(kolibrie_verif))]
 use std::sync::mpsc::Receiver;
+#[cfg(kolibrie_verif)]
+use kolibrie_verif_rt::sync::mpsc::Receiver;
 
 pub use crate::rsp::s2r::WindowTriple;
 
